@@ -132,6 +132,7 @@ type mode struct {
 // problem is one disagreement between the real parser and the case.
 type problem struct {
 	key, detail string
+	hist        []string // connection mode: the commands parsed earlier on the same connection
 }
 
 type outcome struct {
@@ -309,6 +310,90 @@ func execute(c *tcase, kind string, exp interface{}, m mode, rng *rand.Rand) (ou
 	return
 }
 
+// connState is one long-lived connection: ONE parser instance parses command after command, as a session does (the
+// parser, its scanner and whatever they remember live as long as the connection).
+type connState struct {
+	rd     *growReader
+	parser *command.Parser
+	hist   []string
+}
+
+type growReader struct {
+	buf []byte
+	pos int
+}
+
+func (g *growReader) Read(p []byte) (int, error) {
+	if g.pos >= len(g.buf) {
+		return 0, io.EOF
+	}
+	n := copy(p, g.buf[g.pos:])
+	g.pos += n
+	return n, nil
+}
+
+func (cs *connState) reset() {
+	cs.rd = &growReader{}
+	cs.parser = command.NewParserWithLiteralContinuationCb(rfcparser.NewScanner(cs.rd), func() error { return nil })
+	cs.hist = nil
+}
+
+// replayHistory: (replay of a connection-mode violation) the commands that came first on that connection
+var replayHistory []string
+
+// feed parses the case as the next command of the connection; nil = as expected.
+func (cs *connState) feed(c *tcase, kind string, exp interface{}) *problem {
+	if cs.parser == nil {
+		cs.reset()
+		for _, h := range replayHistory {
+			cs.rd.buf = append(cs.rd.buf[cs.rd.pos:], h...)
+			cs.rd.pos = 0
+			cs.hist = append(cs.hist, h)
+			if _, err, pan, _ := safeParse(cs.parser); err != nil || pan != nil {
+				cs.reset()
+			}
+		}
+	}
+	rd, err := render(c.Tag, c.KC, c.Cmd, nil)
+	if err != nil {
+		return nil
+	}
+	cs.rd.buf = append(cs.rd.buf[cs.rd.pos:], rd.b...)
+	cs.rd.pos = 0
+	before := len(cs.hist)
+	got, perror, pan, stack := safeParse(cs.parser)
+	fail := func(key, format string, a ...interface{}) *problem {
+		h := cs.hist
+		if len(h) > 400 {
+			h = h[len(h)-400:]
+		}
+		p := &problem{key: "connection-state/" + key, hist: append([]string{}, h...),
+			detail: fmt.Sprintf(format, a...) + fmt.Sprintf("\ninput %q parsed as command number %d of one connection (one parser instance); the same bytes parse as expected on a fresh parser\nspec expects tag=%q %s\nthe commands before it (last 5 of %d): %q",
+				rd.b, before+1, c.Tag, js(exp), before, cs.hist[max(0, before-5):])}
+		cs.reset()
+		return p
+	}
+	switch {
+	case pan != nil:
+		return fail("panic/"+kind, "the parser panicked: %v\n%s", pan, tailStr(stack, 1200))
+	case perror != nil:
+		return fail("parse-error/"+keyText(perr(perror))+"/"+kind, "a valid command was refused: %v", perror)
+	}
+	act := project(got.Payload)
+	path, what, detail := diff(exp, act, "")
+	if got.Tag != c.Tag {
+		return fail(kind+"/tag/value", "parsed tag %q", got.Tag)
+	}
+	if what != "" {
+		return fail(kind+"/"+path+"/"+what, "%s\nparsed as %s", detail, js(act))
+	}
+	cs.hist = append(cs.hist, string(rd.b))
+	if len(cs.hist) > 5000 {
+		cs.reset() // a new connection now and then
+	}
+	return nil
+}
+
 func tailStr(s string, n int) string {
 	if len(s) > n {
 		return s[len(s)-n:]
@@ -415,6 +500,7 @@ func run(r *ev.Run, tier, replay string) {
 		go func() {
 			defer wg.Done()
 			lc := map[string]int64{}
+			cs := &connState{}
 			for it := range ch {
 				var c tcase
 				if err := json.Unmarshal(it.raw, &c); err != nil || c.Cmd == nil || c.Exp == nil {
@@ -432,6 +518,15 @@ func run(r *ev.Run, tier, replay string) {
 						}
 					}()
 					o, sig = runCase(&c, seed, lc)
+					if o.machinery == "" && len(o.problems) == 0 {
+						// the eighth way: the same parser instance that has parsed every earlier case of this worker
+						kind, _ := c.Cmd["k"].(string)
+						if p := cs.feed(&c, kind, normExp(c.Exp)); p != nil {
+							o.problems = append(o.problems, *p)
+						}
+						lc["connection"]++
+						o.parses++
+					}
 				}()
 				kind, _ := c.Cmd["k"].(string)
 				r.Eval(fmt.Sprintf("%q", sig), !simpleKinds[kind])
@@ -474,8 +569,9 @@ func run(r *ev.Run, tier, replay string) {
 		}
 		var rp struct {
 			Replay struct {
-				Case json.RawMessage `json:"case"`
-				Seed int64           `json:"seed"`
+				Case    json.RawMessage `json:"case"`
+				Seed    int64           `json:"seed"`
+				History []string        `json:"history"`
 			} `json:"replay"`
 		}
 		if err := json.Unmarshal(b, &rp); err != nil || len(rp.Replay.Case) == 0 {
@@ -487,6 +583,7 @@ func run(r *ev.Run, tier, replay string) {
 		if rp.Replay.Seed != 0 {
 			seed = rp.Replay.Seed
 		}
+		replayHistory = rp.Replay.History
 		ch <- item{idx: 0, raw: rp.Replay.Case}
 		idx = 1
 		close(ch)
@@ -538,7 +635,11 @@ func run(r *ev.Run, tier, replay string) {
 	})
 	for _, k := range keys {
 		f := best[k]
-		r.Violate(k, f.p.detail, map[string]interface{}{"case": f.raw, "seed": seed})
+		rp := map[string]interface{}{"case": f.raw, "seed": seed}
+		if len(f.p.hist) > 0 {
+			rp["history"] = f.p.hist
+		}
+		r.Violate(k, f.p.detail, rp)
 	}
 	skeys := make([]string, 0, len(samples))
 	for k := range samples {
@@ -554,7 +655,7 @@ func run(r *ev.Run, tier, replay string) {
 	r.Set("cases_per_command", kinds)
 	r.Set("distinct_failure_shapes", int64(len(best)))
 	r.Set("exhaustive", true)
-	r.Set("rule", "one case = (abstract command with an atom/quoted/literal choice per string argument and the optional-syntax choices, keyword letter case, tag) enumerated exhaustively by TLC from GluonGrammar together with Expected(cmd); every case is rendered and parsed by imap/command.Parser 7 times (whole without and with continuation callback, byte by byte, split at every literal-header/CRLF/quoted-escape boundary, the same with literal data withheld until the continuation callback, seeded random cuts, seeded random keyword case), each followed by a pipelined NOOP that must parse intact; the projected AST must equal Expected; non-trivial = the command has arguments (all but the ten argument-less commands); distinct = distinct rendered bytes. Exhaustive over the bounded grammar of the cfg, not over the unbounded one; the random cuts and random keyword case are samples on top")
+	r.Set("rule", "one case = (abstract command with an atom/quoted/literal choice per string argument and the optional-syntax choices, keyword letter case, tag) enumerated exhaustively by TLC from GluonGrammar together with Expected(cmd); every case is rendered and parsed by imap/command.Parser 8 times (as the next command of a long-lived connection - one parser instance for thousands of consecutive cases, as a session keeps one; whole without and with continuation callback, byte by byte, split at every literal-header/CRLF/quoted-escape boundary, the same with literal data withheld until the continuation callback, seeded random cuts, seeded random keyword case), each followed by a pipelined NOOP that must parse intact; the projected AST must equal Expected; non-trivial = the command has arguments (all but the ten argument-less commands); distinct = distinct rendered bytes. Exhaustive over the bounded grammar of the cfg, not over the unbounded one; the random cuts and random keyword case are samples on top")
 	r.Assumptions = []string{
 		"the renderer (harness/drivers/c10/render.go) is a faithful pretty printer of the RFC 3501/2971/4315/6851/2177/3691 grammar for the abstract commands of GluonGrammar",
 		"TLC integers stop at 2^31-1: 4294967295 is symbolic in sequence sets (max32) and rendered by the harness; non-ASCII text is carried as bytes (field hi)",
